@@ -40,6 +40,22 @@ def frag_task(task):
     return out
 
 
+def inv_task(task):
+    """Worker: partition and depth invariants on an arbitrary (possibly violating) program whose braces balance."""
+    fname, text, label = task
+    r = impl.run_text(fname, text, trace=True)
+    if r.exc is not None:
+        return [f"run ends in {r.exc[0]}: {r.exc[1][:80]}"]
+    probs, nseg, unrec = progrun.segmentation(r)
+    if unrec:
+        probs.append(f"{unrec} tokens took the unrecognised path without a fatal diagnostic")
+    if r.trace and len(r.trace[-1][5]) != 1:
+        probs.append(f"nesting depth at end of file is {len(r.trace[-1][5])}")
+    if r.stdout:
+        probs.append("stray output")
+    return probs
+
+
 def run(tier, seed):
     st = explore.Stats()
     failures = []
@@ -90,6 +106,24 @@ def run(tier, seed):
                                     f"fragment {fr!r} ({mode}) after {ids[-2:]}: status {o['status']}, exc {o['exc']}, "
                                     f"stdout {o['stdout'][:20]!r} seg {o['seg'][:2]}",
                                     {"kind": "frag", "task": [ftype, list(ids), tier, fr, mode]}))
+    # ---- violating programs and brace-separator variants: partition and depth-at-end-of-file invariants
+    from .. import carriers
+    vtasks = [(v["fname"], v["text"], "violating:" + v["vid"]) for v in carriers.violating("quick", per_op=1 if tier == "quick" else 3)]
+    for c in carriers.conforming("quick", cap=30 if tier == "quick" else 200):
+        lines = c["lines"]
+        for i, l in enumerate(lines):
+            if l.kind == "lbrace" and i > 0:
+                ind = "\t" * l.depth
+                for label, sep in (("comment", ind + "// c"), ("blockcomment", ind + "/* c */"), ("empty", ""), ("define", "#define SEP 1")):
+                    new = lines[:i] + [norm.Line([norm.P("raw", sep)], "raw")] + lines[i:]
+                    vtasks.append((c["fname"], norm.render(c["pre"] + new), f"separator:{label}:before-brace-after-{lines[i - 1].kind}"))
+    vres = explore.pmap(inv_task, vtasks, chunksize=8)
+    st.runs += len(vtasks)
+    st.transitions += len(vtasks)
+    st.bump("violating_and_separator_programs", len(vtasks))
+    for (fname, text, label), probs in zip(vtasks, vres):
+        for pr in probs:
+            failures.append(Failure("C07", f"{label}:{pr.split(' (')[0][:50]}", f"{label}: {pr}", {"kind": "inv", "fname": fname, "text": text}))
     for mode in ("mid", "last-nl", "last-nonl"):
         if st.vacuity.get(f"took_unrecognised_path:{mode}", 0) == 0:
             raise HarnessError(f"no inserted fragment took the unrecognised path in position class {mode}")
@@ -111,6 +145,8 @@ def run(tier, seed):
 
 
 def replay(payload):
+    if payload["kind"] == "inv":
+        return [Failure("C07", "invariant", p, payload) for p in inv_task((payload["fname"], payload["text"], ""))]
     if payload["kind"] == "frag":
         t = payload["task"]
         o = frag_task((t[0], tuple(t[1]), t[2], t[3], t[4]))
